@@ -9,7 +9,7 @@
     SameWithOrWithoutOrientation, OrientationAnnotated) and compares it with the exact prediction of the Model
     (mismatch with all Judges holding = DIVERGENCE, not a violation)."""
 import concurrent.futures as cf
-import json, os
+import json, os, re
 import vlib
 
 MOD, GEN, JUDGE, JCFG = "MultipolygonMC", "MultipolygonGen", "MultipolygonJudge", "MultipolygonJudge.cfg"
@@ -36,7 +36,7 @@ FAM_THOROUGH = [
     ("two43h2",  "S_Two43H2",  1, '{"of", "if", "alt"}',  4),
 ]
 MC_QUICK = ["Multipolygon_mc_q1.cfg", "Multipolygon_mc_q2.cfg", "Multipolygon_same_q.cfg", "Multipolygon_live_q.cfg"]
-MC_THOROUGH = ["Multipolygon_mc_t1.cfg", "Multipolygon_mc_t2.cfg", "Multipolygon_mc_t3.cfg", "Multipolygon_mc_t4.cfg",
+MC_THOROUGH = ["Multipolygon_mc_t1.cfg", "Multipolygon_mc_t2.cfg", "Multipolygon_mc_t2b.cfg", "Multipolygon_mc_t3.cfg", "Multipolygon_mc_t4.cfg",
                "Multipolygon_same_t.cfg", "Multipolygon_space_b.cfg", "Multipolygon_live_t.cfg"]
 
 GEN_CFG = """CONSTANT Shapes <- %s
@@ -96,15 +96,25 @@ def nontrivial(c):
     return any(v > 1 for v in rings.values()) or any(m["dir"] == -1 for m in c["members"])
 
 
+MC_SIM = "Multipolygon_mc_sim.cfg"
+
+
 def model_check(ctx, cfgs):
-    def one(cfg):
-        live = "_live_" in cfg
-        return cfg, vlib.tlc(MOD, cfg, ctx.scratch, workers=3 if live else 4, timeout=2400)
     if not cfgs:
         return
+    def one(cfg):
+        if cfg == MC_SIM:    # larger shapes: random behaviours of generating machine + algorithms, same invariants
+            return cfg, vlib.tlc(MOD, cfg, ctx.scratch, workers=2, timeout=2400,
+                                 args=("-simulate", "num=%d" % (40 if ctx.quick() else 400), "-depth", "200", "-seed", str(ctx.seed)))
+        live = "_live_" in cfg
+        return cfg, vlib.tlc(MOD, cfg, ctx.scratch, workers=3 if live else 4, timeout=2400)
+    cfgs = list(cfgs) + [MC_SIM]
     with cf.ThreadPoolExecutor(max_workers=len(cfgs)) as ex:
         res = list(ex.map(one, cfgs))
     for cfg, r in res:
+        m = re.search(r"number of states generated: (\d+)", r.out) if cfg == MC_SIM else None
+        if m:
+            r.generated = int(m.group(1))     # simulation: states visited on random behaviours (not distinct states)
         ctx.states += r.distinct
         ctx.transitions += r.generated
         ctx.tlc_runs.append({"module": MOD, "cfg": cfg, "distinct": r.distinct, "generated": r.generated,
